@@ -596,6 +596,15 @@ class ResultTypesGenerator:
                 )
                 return node
 
+            @staticmethod
+            def enter_fragment_definition(
+                node: FragmentDefinitionNode, *_args: Any
+            ) -> FragmentDefinitionNode:
+                node.directives = tuple(
+                    d for d in node.directives or [] if d.name.value != MIXIN_NAME
+                )
+                return node
+
         copied_node = deepcopy(node)
         visit(copied_node, RemoveMixinVisitor())
         return copied_node
